@@ -9,6 +9,7 @@
 #include <string>
 #include <vector>
 #include <map>
+#include <set>
 #include <sstream>
 #include <string.h>
 #include <stdlib.h>
@@ -103,6 +104,14 @@ static void do_instantiate(int c, int parent, int mode = 0, int envsel = -1) {
     m.inst = inst; m.memobj = iglue_mem_object(inst); m.tabobj = iglue_tab_object(inst);
     if (!g_mem.count(m.memobj)) { MemModel mm; mm.pages = D_MEM_MIN; mm.b.assign((size_t)D_MEM_MIN * 65536, 0); g_mem[m.memobj] = mm; }
     if (!g_tab.count(m.tabobj)) { TabModel t; for (int i = 0; i < 8; i++) t.slot[i] = -1; g_tab[m.tabobj] = t; }
+    {
+        // the function export table: exactly the module's function exports, each name once (aliases and re-exported imports included)
+        std::multiset<std::string> want, got; { std::istringstream is(D_FUNC_EXPORT_NAMES); std::string w; while (is >> w) want.insert(w); }
+        int n = iglue_func_export_count(inst);
+        for (int k = 0; k < n; k++) { const char* nm = iglue_func_export_name(inst, k); got.insert(nm ? nm : "(null)"); }
+        if (got != want) { std::string miss, extra; for (auto& w : want) if (!got.count(w)) miss += " " + w; for (auto& g2 : got) if (got.count(g2) > want.count(g2)) extra += " " + g2; V("C06/exports/function-export-table", "missing:" + miss + " unexpected/duplicate:" + extra); }
+        else for (int k = 0; k < n; k++) { std::string nm = iglue_func_export_name(inst, k); if ((nm == "get_g2" || nm == "get_g2_alias") && iglue_func_export_call_i(inst, k) != D_G2_BITS) V("C06/exports/function-export-table-entry", nm + " does not lead to the exported function"); }
+    }
     if (!D_MEM_IMPORTED && iglue_export_memory(inst) != m.memobj) V("C06/exports/memory-accessor-returns-another-object", "inst_memory(instance) is not the instance's memory");
     if (D_MEM_IMPORTED && m.memobj != env->mem) V("C06/imports/memory-not-bound-to-resolver-object", "instance uses another memory object than the resolver returned");
     if (D_TAB_IMPORTED && m.tabobj != env->tab) V("C06/imports/table-not-bound-to-resolver-object", "");
